@@ -223,6 +223,11 @@ def cases(tier):
             yield {"k": "mtag", "specs": [[k1, 0], [k2, 0]], "shape": [4, 3], "pos2d": False}
     for kind in ("sampled", "range", "set"):
         yield {"k": "feat", "kind": kind}
+    for iv in (0.1, 0.3, 0.7, 1e-3):
+        for off in (None, 0.1, -0.7):
+            yield {"k": "nondyadic", "iv": iv, "off": off}
+    for kind in ("sampled", "range"):
+        yield {"k": "multiref", "kind": kind}
 
 
 def resolve(case):
@@ -421,7 +426,95 @@ def run_feat(case, r):
         s.close()
 
 
+def run_nondyadic(case, r):
+    """sampling interval / offset not exactly representable: positions are the ones the library itself reports
+    for sample k (position_at); a point tag on sample k selects sample k, a region from k to j selects k..j"""
+    iv, off = case["iv"], case["off"]
+    n = 40
+    s = S()
+    try:
+        data = np.arange(float(n)) + 1
+        da = s.b.create_data_array("d", "t", data=data)
+        dim = da.append_sampled_dimension(iv)
+        if off is not None:
+            dim.offset = off
+        pos = [dim.position_at(i) for i in range(n)]
+        tag = s.b.create_tag("tag", "t", [0.0])
+        tag.references.append(da)
+        pa = s.b.create_data_array("pos", "t", data=np.array(pos))
+        mt = s.b.create_multi_tag("mt", "t", pa)
+        mt.references.append(da)
+        for k in range(n):
+            tag.position = [pos[k]]
+            tag.extent = None
+            for rn, rule in RULES:
+                st, got = observe(lambda: tag.tagged_data(0, rule))
+                judge(r, "C08|tag|sampled-nondyadic|point|%s" % rn, "point tag on sample %d (interval %r offset %r)" % (k, iv, off),
+                      data, [[k]], True, st, got)
+                st, got = observe(lambda: mt.tagged_data(k, 0, rule))
+                judge(r, "C08|mtag|sampled-nondyadic|point|%s" % rn, "multi-tag point on sample %d (interval %r offset %r)" % (k, iv, off),
+                      data, [[k]], True, st, got)
+            for j in range(k + 1, min(n, k + 12), 5):
+                tag.extent = [pos[j] - pos[k]]
+                # pos[k] + (pos[j] - pos[k]) may differ from pos[j] by an ulp: still 'on' sample j for the library
+                for rn, rule in RULES:
+                    st, got = observe(lambda: tag.tagged_data(0, rule))
+                    sel = list(range(k, j + 1)) if rn == "incl" else list(range(k, j))
+                    judge(r, "C08|tag|sampled-nondyadic|region|%s" % rn,
+                          "region from sample %d to sample %d (interval %r offset %r)" % (k, j, iv, off), data, [sel], True, st, got)
+    finally:
+        s.close()
+
+
+def run_multiref(case, r):
+    """one tag (with units) referencing several arrays whose dimensions carry different unit prefixes"""
+    kind = case["kind"]
+    n = 5
+    spec = variants(kind, n)[0]
+    c = coords(spec, n)
+    s = S()
+    try:
+        tag = s.b.create_tag("tag", "t", [0.0])
+        tag.units = ["ms"]
+        arrays = []
+        for dp in ("m", "", "u", "k"):
+            da, data = mk_array(s, "d" + (dp or "none"), (n,), [spec], units=[dp + "s"])
+            data = data + 100 * len(arrays)
+            da[:] = data
+            tag.references.append(da)
+            fa, fdata = mk_array(s, "f" + (dp or "none"), (n,), [spec], units=[dp + "s"])
+            tag.create_feature(fa, nix.LinkType.Tagged)
+            arrays.append((dp, data, fdata))
+
+        def mid(i):
+            return c[i] + (c[i + 1] - c[i]) / 2
+        regs = [(mid(0), mid(2) - mid(0)), (mid(1), mid(3) - mid(1)), (mid(2), None)]
+        for order in (range(len(arrays)), reversed(range(len(arrays)))):
+            for idx in order:
+                dp, data, fdata = arrays[idx]
+                scale = Fr(10) ** (PREF["m"] - PREF[dp])
+                for p, e in regs:
+                    tag.position = [float(p / scale)]
+                    tag.extent = None if e is None else [float(e / scale)]
+                    for rn, rule in RULES:
+                        sel = [select(c, p, e, rn)]
+                        for other in range(len(arrays)):
+                            # touch another reference first (per-tag state must not leak between references)
+                            observe(lambda: tag.tagged_data(other, rule))
+                            st, got = observe(lambda: tag.tagged_data(idx, rule))
+                            judge(r, "C08|tag-multiref|%s|ms->%ss|%s" % (kind, dp, rn),
+                                  "tag (ms) referencing arrays with units ms/s/us/ks: reference %d region [%s,+%s]" % (idx, float(p), e),
+                                  data, sel, contained(c, p, e), st, got)
+                            st, got = observe(lambda: tag.feature_data(idx, rule))
+                            judge(r, "C08|tag-multiref-feature|%s|ms->%ss|%s" % (kind, dp, rn),
+                                  "tag (ms) tagged feature %d on an array with unit %ss" % (idx, dp),
+                                  fdata, sel, contained(c, p, e), st, got)
+    finally:
+        s.close()
+
+
 def run_case(case):
     r = R()
-    {"tag": run_tag, "units": run_units, "mtag": run_mtag, "feat": run_feat}[case["k"]](case, r)
+    {"tag": run_tag, "units": run_units, "mtag": run_mtag, "feat": run_feat, "nondyadic": run_nondyadic,
+     "multiref": run_multiref}[case["k"]](case, r)
     return r
